@@ -238,6 +238,7 @@ def weights():
 
 def knobs(rng):
     return Knobs(
+        p_datadiv=rng.choice([0.0, 0.15, 0.3]),
         hostile_names=rng.random() < 0.7,
         p_config=rng.choice([0, 0.2]),
         p_window=rng.choice([0.0, 0.2]),
